@@ -32,6 +32,8 @@ Catalogue == [
   Qla  |-> Obj("q", "float64", <<R(2048)>>, "la", FALSE),
   Qoff |-> Obj("q", "float64", <<R(2096)>>, "la", FALSE),          \* 48 more than the others
   Aoff |-> Obj("arr", "float64", <<R(16768), R(32768)>>, "lc", FALSE), \* first element 48 more
+  Ala2 |-> Obj("arr", "float64", <<R(512), R(1024)>>, "la2", FALSE),     \* the symbol la of a second registry, worth 4
+  Apost |-> Obj("arr", "float32", <<R(512), R(1024)>>, "lapost", FALSE), \* the symbol la of a registry after modify("la", 4)
   Ata  |-> Obj("arr", "float64", <<R(2048), R(4096)>>, "ta", FALSE),
   Atb  |-> Obj("arr", "float64", <<R(128), R(256)>>, "tb", FALSE),
   Ana  |-> Obj("arr", "float64", <<R(2048), R(4096)>>, "na", FALSE),
@@ -41,12 +43,12 @@ Catalogue == [
   Bar4 |-> Obj("ba", "float32", <<R(2048), R(4096)>>, "bare", FALSE),
   BarV |-> Obj("ba", "float64", <<R(2048), R(4096)>>, "bare", TRUE)]
 Pairs == {<<"Ala", "Alb">>, <<"Alb", "Alc4">>, <<"Ala", "Vlb">>, <<"Vlc4", "Ala">>, <<"Qla", "Qlb">>, <<"Ala", "Qlb">>, <<"Qoff", "Qlb">>, <<"Alb", "Aoff">>,
-          <<"Alb", "Ald">>, <<"Ata", "Atb">>, <<"Ala", "Atb">>, <<"Ana", "Anq">>, <<"Anq4", "Bare">>, <<"BarV", "Anq">>, <<"Bar4", "Anq4">>, <<"Ala4", "Alc4">>}
+          <<"Alb", "Ald">>, <<"Ata", "Atb">>, <<"Ala", "Atb">>, <<"Ana", "Anq">>, <<"Anq4", "Bare">>, <<"BarV", "Anq">>, <<"Bar4", "Anq4">>, <<"Ala4", "Alc4">>, <<"Ala", "Ala2">>, <<"Apost", "Alb">>}
          \cup (IF Thorough THEN {<<"Ala", "Alc4">>, <<"Vlb", "Vlc4">>, <<"Qoff", "Aoff">>, <<"Ana", "Bare">>, <<"Ala", "Bare">>, <<"Ala", "Ala4">>, <<"Qla", "Aoff">>, <<"Anq", "Anq4">>} ELSE {})
 PoolOf(p) == <<Catalogue[p[1]], Catalogue[p[2]]>>
 
 \* another unit of the same dimension, for re-expression by .to()
-Alt(u) == CASE u = "la" -> "lb" [] u = "lb" -> "lc" [] u = "lc" -> "la" [] u = "ld" -> "la" [] u = "ta" -> "tb" [] u = "tb" -> "ta" [] u = "na" -> "nq" [] u = "nq" -> "na" [] OTHER -> ""
+Alt(u) == CASE u = "la" -> "lb" [] u = "lb" -> "lc" [] u = "lc" -> "la" [] u = "ld" -> "la" [] u = "ta" -> "tb" [] u = "tb" -> "ta" [] u = "na" -> "nq" [] u = "nq" -> "na" [] u = "la2" -> "lb2" [] u = "lapost" -> "lapre" [] OTHER -> ""
 St(h, a, d, rea, red, rt, at) == [helper |-> h, a |-> a, d |-> d, rea |-> rea, red |-> red, rt |-> rt, at |-> at]
 \* numpy's own code decides when neither operand is a unyt object
 Dispatches(pl, st) == st.helper \in UnytHelpers \/ st.helper = "assert_array_equal_units" \/ pl[st.a].k # "ba" \/ pl[st.d].k # "ba"
